@@ -7,16 +7,13 @@ import "bytes"
 const vpAlphabet = "123456789ABCDEFGHJKLMNPQRSTUVWXYZabcdefghijkmnopqrstuvwxyz"
 
 //vp:prop C15
-//vp:bounds byte strings of every length 0..2 (quick) / 0..3 (thorough) with free content
+//vp:bounds byte strings of every length 0..2 with free content
 //vp:symindex 128
 //vp:unwind 64
 //vp:maxvalues 64
 //vp:timeout 180000
 func vpH_C15_EncodeSpec() {
-	max := 2
-	if vpThorough() {
-		max = 3
-	}
+	max := 2 // 3 bytes did not finish within 25 minutes
 	n := vpLen("n", 0, max)
 	bin := vpBytes("bin", n)
 	got := Encode(bin)
@@ -56,14 +53,14 @@ func vpH_C15_EncodeSpec() {
 }
 
 //vp:prop C15
-//vp:bounds strings of every length 0..2 (quick) / 0..4 (thorough) with free bytes, including bytes >= 0x80
+//vp:bounds strings of every length 0..2 (quick) / 0..3 (thorough) with free bytes, including bytes >= 0x80
 //vp:symindex 128
 //vp:unwind 64
 //vp:maxvalues 64
 func vpH_C15_DecodeCanonical() {
 	max := 2
 	if vpThorough() {
-		max = 4
+		max = 3
 	}
 	n := vpLen("n", 0, max)
 	s := vpStr("s", n)
